@@ -126,7 +126,13 @@ func (h *Heap[T]) Pop() T {
 // Delete removes an element from the heap. It returns false in case the element does not exists.
 // After removal, it reorders the heap structure based on the heap-specific rules.
 func (h *Heap[T]) Delete(val T) (bool, error) {
-	len := h.Size()
+	// The size, the index of the element and the removal itself have to be
+	// computed under the same lock acquisition, otherwise a concurrent
+	// Push/Pop/Clear can invalidate the index between the lookup and the removal.
+	h.mu.Lock()
+	defer h.mu.Unlock()
+
+	len := h.size()
 	if len == 0 {
 		return false, fmt.Errorf("heap empty")
 	}
@@ -135,9 +141,6 @@ func (h *Heap[T]) Delete(val T) (bool, error) {
 	if !ok {
 		return false, fmt.Errorf("value not found in the heap: %v", val)
 	}
-
-	h.mu.Lock()
-	defer h.mu.Unlock()
 
 	swap(h.data, idx, len-1)
 	h.data = h.data[:len-1]
@@ -288,15 +291,13 @@ func swap[T any](data []T, i, j int) {
 	data[i], data[j] = data[j], data[i]
 }
 
+// getIndex has a local scope only: it has to be called with the lock held.
 func (h *Heap[T]) getIndex(slice []T, val T) (int, bool) {
-	h.mu.RLock()
 	for i := 0; i < len(slice); i++ {
 		if slice[i] == val {
-			h.mu.RUnlock()
 			return i, true
 		}
 	}
-	h.mu.RUnlock()
 
 	return -1, false
 }
